@@ -1253,3 +1253,38 @@ Lemma int_exact_json z ind : (- Z.of_N two63 <= z < Z.of_N two63)%Z -> parse_jso
 Proof.
   intro Hz. apply decode_encode. cbn [rt_domain]. apply andb_true_iff. split; [apply Z.leb_le|apply Z.ltb_lt]; lia.
 Qed.
+
+(* ------------------------------------------------------------------ *)
+(* floats: the printer as a contract                                   *)
+(* ------------------------------------------------------------------ *)
+
+Section FloatContract.
+  Variable fmt : f64 -> res str.
+  (* the usual contract of shortest round-trip formatting: what is printed
+     for a binary64 is a number token that ParseFloat maps back to it *)
+  Hypothesis H_fmt : forall f t, fmt f = Ok t -> float_token_ok t = true /\ token_value t = Some f.
+
+  Lemma float_scalar_value x v :
+    to_json (ff_of fmt) (NScalar t_float x) = Ok v ->
+    exists f t, v = JFloat t /\ go_parse_float x = Some f /\ token_value t = Some f /\ float_token_ok t = true.
+  Proof.
+    cbn [to_json]. unfold scalar_rep.
+    change (is_prefix [33; 33] t_float) with true. change (str_eqb t_float t_int) with false.
+    change (str_eqb t_float t_float) with true. cbv iota.
+    unfold float_token. destruct (go_float_numeric x) as [[|]|]; try discriminate.
+    unfold ff_of. destruct (go_parse_float x) as [f|] eqn:Hp; [|discriminate].
+    destruct (fmt f) as [t|e] eqn:Hf; [|discriminate]. intro H. injection H as <-.
+    destruct (H_fmt f t Hf) as [H1 H2]. exists f, t. repeat split; assumption.
+  Qed.
+
+  (* YAML float text -> JSON -> reader: the token that comes back denotes the
+     binary64 of the YAML text, or is the int64 integer the reader made of it *)
+  Lemma float_through_json x v ind :
+    to_json (ff_of fmt) (NScalar t_float x) = Ok v ->
+    exists f t, go_parse_float x = Some f /\ token_value t = Some f
+                /\ parse_json (enc_top ind v) = Ok (reclass (JFloat t)).
+  Proof.
+    intro H. destruct (float_scalar_value x v H) as (f & t & -> & Hp & Hv & Hok).
+    exists f, t. split; [exact Hp|]. split; [exact Hv|]. apply decode_encode_f. exact Hok.
+  Qed.
+End FloatContract.
